@@ -15,7 +15,10 @@ static size_t valid_arg(char *o, int type, size_t size)
         case CAT_VAR_UINT_DEC: return (size_t)sprintf(o, "%u", rn(200));
         case CAT_VAR_NUM_HEX: return (size_t)sprintf(o, "0x%X", rn(200));
         case CAT_VAR_BUF_HEX: { size_t nb = 1 + rn((unsigned)size); for (size_t i = 0; i < nb * 2; i++) o[i] = "0123456789abcdefABCDEF"[rn(22)]; o[nb * 2] = 0; return nb * 2; }
-        default: { size_t L = rn((unsigned)size), k = 0; o[k++] = '"'; for (size_t i = 0; i < L; i++) o[k++] = (char)('a' + rn(26)); o[k++] = '"'; o[k] = 0; return k; }
+        default: {      /* a valid string of L decoded characters: letters, commas, and the three escapes (also as the last character: "...\\\\" ends in an escaped backslash right before the closing quote) */
+                size_t L = rn((unsigned)size), k = 0; o[k++] = '"';
+                for (size_t i = 0; i < L; i++) { unsigned r = rn(12); if (r == 0 || (i + 1 == L && r < 4)) { o[k++] = '\\'; o[k++] = "\\\"n"[rn(3)]; } else if (r == 1) o[k++] = ','; else o[k++] = (char)('a' + rn(26)); }
+                o[k++] = '"'; o[k] = 0; return k; }
         }
 }
 /* string text with decoded length L; mode 0 plain, 1 last char escaped, 2 all escaped, 3 random mix; defect: 0 none,1 no closing quote,2 junk after,3 bad escape,4 no opening quote,5 dangling backslash */
